@@ -174,13 +174,21 @@ fn kind_of(o: &OTy) -> &'static str {
     }
 }
 
-/// the typeshare.toml key of a container instance typeshare documents as mappable ("Vec<u8>")
+/// the typeshare.toml key of a container instance typeshare documents as mappable ("Vec<u8>", also nested:
+/// "Vec<Vec<u8>>", "HashMap<String,Vec<u8>>" - the key is the Rust spelling without blanks)
 fn special_mapping_key(t: &Ty) -> Option<String> {
-    match t {
-        Ty::Vec(inner) => match inner.peel() {
-            Ty::Prim(p) if *p != Prim::Unit && *p != Prim::Str => Some(format!("Vec<{}>", p.rust())),
+    fn key(t: &Ty) -> Option<String> {
+        match t.peel() {
+            // `&str` is the same special type as `String` to typeshare
+            Ty::Prim(Prim::Str) => Some("String".to_string()),
+            Ty::Prim(p) if *p != Prim::Unit => Some(p.rust().to_string()),
+            Ty::Vec(i) => Some(format!("Vec<{}>", key(i)?)),
+            Ty::Map(k, v) => Some(format!("HashMap<{},{}>", key(k)?, key(v)?)),
             _ => None,
-        },
+        }
+    }
+    match t {
+        Ty::Vec(_) | Ty::Map(..) => key(t),
         _ => None,
     }
 }
